@@ -59,7 +59,14 @@ def gen_bayes_schedule(seed, k, m, rate):
     N = m["y"].shape[0]
     if k == 0:
         return {"perm": list(range(N)), "routes": ["a"] * N, "faults": {}}
-    if k == 1 or r.coin(0.15):
+    if k == 1 or r.coin(0.25):
+        if k != 1 and r.coin(0.6):
+            sch = {"one_shot": True, "style": "incremental", "perm": r.perm(N), "hows": [r.choice(["hadamard", "multiply"]) for _ in range(N)],
+                   "ufs": [r.coin(0.6) for _ in range(N)], "faults": {}}
+            for t in range(1, N):
+                if r.coin(rate):
+                    sch["faults"][str(t)] = [gen_fault(r)]
+            return sch
         return {"one_shot": True, "faults": {}}
     sch = {"perm": r.perm(N), "routes": [r.choice(["a", "b"]) for _ in range(N)], "faults": {}}
     for t in range(1, N):
@@ -96,6 +103,9 @@ def gen_kalman(seed, tier):
         "C": r.normal((Dy, Dz), 0.8), "d": r.normal((Dy,), 0.5), "R": r.spd(1, Dy, cmax)[0],
         "ys": r.normal((T, Dy), 1.5),
         "trans_cls": r.wchoice(["general", "identity"], [4, 1]),
+        # optional time-varying noise: the same conditional objects are re-used with update_Sigma
+        "Rs": r.spd(T, Dy, cmax) if r.coin(0.5) else None,
+        "Qs": r.spd(T, Dz, cmax) if r.coin(0.35) else None,
     }
 
 
@@ -103,8 +113,9 @@ def gen_kalman_schedule(seed, k, m, rate):
     r = Rng(seed, "kalman-sched", k)
     T = m["ys"].shape[0]
     if k == 0:
-        return {"routes": ["a"] * T, "faults": {}}
-    sch = {"routes": [r.choice(["a", "b"]) for _ in range(T)], "faults": {}}
+        return {"routes": ["a"] * T, "faults": {}, "inplace": [False] * T}
+    sch = {"routes": [r.choice(["a", "b"]) for _ in range(T)], "faults": {},
+           "inplace": [r.coin(0.6) for _ in range(T)]}
     for t in range(1, T):
         if r.coin(rate):
             sch["faults"][str(t)] = [gen_fault(r)]
@@ -155,7 +166,7 @@ def ref_kalman(m):
         # Cov(x_t, x_j) = A Cov(x_{t-1}, x_j) for j < t
         cov[s, :t * Dz] = Am @ cov[p, :t * Dz]
         cov[:t * Dz, s] = cov[s, :t * Dz].T
-        cov[s, s] = Am @ cov[p, p] @ Am.T + Q
+        cov[s, s] = Am @ cov[p, p] @ Am.T + (A(m["Qs"])[t - 1] if m.get("Qs") is not None else Q)
     # observations
     for t in range(1, T + 1):
         o = slice(nx + (t - 1) * Dy, nx + t * Dy)
@@ -166,7 +177,7 @@ def ref_kalman(m):
         for u in range(1, T + 1):
             o2 = slice(nx + (u - 1) * Dy, nx + u * Dy)
             s2 = slice(u * Dz, (u + 1) * Dz)
-            cov[o, o2] = C @ cov[s, s2] @ C.T + (R if u == t else 0.0)
+            cov[o, o2] = C @ cov[s, s2] @ C.T + ((A(m["Rs"])[t - 1] if m.get("Rs") is not None else R) if u == t else 0.0)
     out = []
     yflat = ys.reshape(-1)
     for t in range(1, T + 1):
@@ -205,10 +216,10 @@ def _prior(cls, m0, S0):
     return k(Sigma=jnp.asarray(A(S0)[None]), mu=jnp.asarray(A(m0)[None]))
 
 
-def _apply_faults(w, post, faults, t, stats):
+def _apply_faults(w, post, faults, t, stats, kind="pdf"):
     if not faults:
         return post
-    w.slots[0] = Slot(0, post, "pdf", t, "carry")
+    w.slots[0] = Slot(0, post, kind, t, "carry")
     for f in faults:
         perturb.apply(w, f, t)
     return w.slots[0].obj
@@ -239,6 +250,20 @@ def run_bayes(m, sch, w):
     prior = _prior(m["prior_cls"], m["m0"], m["S0"])
     cond = _cond(m["cond_cls"], m["M"], m["b"], m["Sigma"])
     y = A(m["y"])
+    if sch.get("one_shot") and sch.get("style") == "incremental":
+        un = prior
+        for t, i in enumerate(sch["perm"]):
+            un = _apply_faults(w, un, sch["faults"].get(str(t)), t, w.stats, kind="measure")
+            lik_i = cond.slice(jnp.asarray([i])).set_y(jnp.asarray(y[i:i + 1]))
+            if sch["hows"][t] == "hadamard":
+                un = un.hadamard(lik_i, update_full=bool(sch["ufs"][t]))
+            else:
+                un = un.multiply(lik_i, update_full=bool(sch["ufs"][t]))
+            ref.I_coh(un, where=f"bayes incremental step {t}")
+        ev = A(un.log_integral())[0]
+        post = un.get_density()
+        w.stats["route.d"] += 1
+        return post, ev
     if sch.get("one_shot"):
         lik = cond.set_y(jnp.asarray(y))
         ref.I_coh(prior)
@@ -275,8 +300,28 @@ def run_kalman(m, sch, w):
     ev = 0.0
     out = []
     ys = A(m["ys"])
+    def mk_trans(Qt):
+        if m.get("trans_cls") == "identity":
+            return C.ConditionalIdentityGaussianPDF(Sigma=jnp.asarray(Qt[None]))
+        return C.ConditionalGaussianPDF(M=jnp.asarray(A(m["A"])[None]), b=jnp.asarray(A(m["b"])[None]), Sigma=jnp.asarray(Qt[None]))
+
     for t in range(T):
         filt = _apply_faults(w, filt, sch["faults"].get(str(t)), t, w.stats)
+        inplace = bool(sch.get("inplace", [False] * T)[t])
+        if m.get("Qs") is not None:
+            Qt = A(m["Qs"])[t]
+            if inplace:
+                trans.update_Sigma(jnp.asarray(Qt[None]))
+                w.stats["update_Sigma_inplace"] += 1
+            else:
+                trans = mk_trans(Qt)
+        if m.get("Rs") is not None:
+            Rt = A(m["Rs"])[t]
+            if inplace:
+                emis.update_Sigma(jnp.asarray(Rt[None]))
+                w.stats["update_Sigma_inplace"] += 1
+            else:
+                emis = C.ConditionalGaussianPDF(M=jnp.asarray(A(m["C"])[None]), b=jnp.asarray(A(m["d"])[None]), Sigma=jnp.asarray(Rt[None]))
         pred = trans.affine_marginal_transformation(filt)
         filt, lp = _update(emis, pred, ys[t], sch["routes"][t], Dz, Dy)
         ref.envelope(filt)
@@ -319,11 +364,14 @@ def judge_kalman(out, refv, w):
 
 def ref_envelope_ok(m):
     """Reference side enforces the envelope: prior, noise, posterior and evidence covariance."""
-    if m["kind"] == "bayes":
-        mu, Sig, ev = ref_bayes(m)
-        return ref.spectrum_ok(Sig[None]) and ref.spectrum_ok(A(m["S0"])[None])
-    outs = ref_kalman(m)
-    return all(ref.spectrum_ok(Sg[None]) for _, Sg, _ in outs)
+    try:
+        if m["kind"] == "bayes":
+            mu, Sig, ev = ref_bayes(m)
+            return ref.spectrum_ok(Sig[None]) and ref.spectrum_ok(A(m["S0"])[None])
+        outs = ref_kalman(m)
+        return all(ref.spectrum_ok(Sg[None]) for _, Sg, _ in outs)
+    except Violation:
+        return False  # the *reference* left the envelope: discard, never judge
 
 
 def execute(m, sch, salt=0, findings=None):
@@ -385,9 +433,9 @@ def run(seed, tier, prop="C11"):
         stats["twins"] += 1
         finals.append(fin)
         digests.append(util.sha_bytes(A(fin[0]), A(fin[1]), np.asarray(fin[2])))
-        nontriv = bool(sch.get("one_shot")) or getattr(w, "fired", 0) > 0 or sch.get("perm", None) != sorted(sch.get("perm", [])) or "b" in sch.get("routes", [])
+        nontriv = bool(sch.get("one_shot")) or getattr(w, "fired", 0) > 0 or sch.get("perm", None) != sorted(sch.get("perm", [])) or "b" in sch.get("routes", []) or any(sch.get("inplace", []))
         if nontriv:
-            sigs.append(util.sha_bytes(kind, repr(sch.get("perm")), repr(sch.get("routes")), repr(sorted(sch["faults"].items())),
+            sigs.append(util.sha_bytes(kind, repr(sch.get("perm")), repr(sch.get("routes")), repr(sch.get("inplace")), repr(sch.get("hows")), repr(sch.get("ufs")), repr(sorted(sch["faults"].items())),
                                        repr([np.shape(m[k2]) for k2 in sorted(m) if hasattr(m[k2], "shape")]), m.get("cond_cls", m.get("trans_cls"))))
         res["known"] = sorted(set(res["known"]) | set(w.known))
     if res["ok"] and len(finals) > 1:
